@@ -226,6 +226,15 @@ def observe(X, y, low, tol, queries=None):
         rec["dist"] = [float(v) for v in m.score_samples(Xa, ya)]
         rec["sfm"] = np.asarray(m.score_feature_matrix(Xa), dtype=float).tolist()
         rec["tol"] = float(m.tolerance)
+        # model of score_feature_matrix: high-dimensional features minus the interpolant (oracle),
+        # and the interpolator's contract: it reproduces the values at its nodes (selected samples)
+        lowf = Xa[:, list(low)]
+        interp = np.asarray(m.interpolator_high_dim_(lowf.reshape(-1) if len(low) == 1 else lowf), dtype=float)
+        hi = Xa[:, m.high_dim_idx_]
+        rec["sfm_model_ok"] = bool(np.array_equal(np.asarray(rec["sfm"], dtype=float).reshape(hi.shape),
+                                                  hi - interp.reshape(hi.shape), equal_nan=True))
+        sel = np.asarray(m.selected_idx_, dtype=int)
+        rec["interp_node_residual"] = float(np.max(np.abs((hi - interp.reshape(hi.shape))[sel]))) if hi.size else 0.0
         if queries:
             Xq = np.array([q[0] for q in queries], dtype=float)
             yq = np.array([q[1] for q in queries], dtype=float)
@@ -298,8 +307,22 @@ def qmat(m):
 
 
 def facets_lit(rec):
+    """the facets read from the fitted object, each row (normal, offset) multiplied by the
+    power of two 2^E that makes all its entries integers.  Exactly the binary64 values up to
+    that positive factor; facet distances, the sign of the y-normal and the contract are
+    invariant under it (Coq: C19_facet_scaling), and exact rational arithmetic on integers is
+    an order of magnitude cheaper inside Coq than on 53-bit dyadic fractions."""
     out = []
     for e, s in zip(rec["eq"], rec["simplices"]):
-        out.append("mkFacet %s %s [%s]%%nat" % (qlist(e[:-1]), q_of_float(e[-1]),
-                                                "; ".join("%d" % v for v in s)))
+        fr = [Fraction(float(v)) for v in e]
+        E = max(f.denominator for f in fr)          # denominators are powers of two
+        ints = [int(f * E) for f in fr]
+        assert all(Fraction(i, E) == f for i, f in zip(ints, fr))
+        out.append("mkFacet %s %s [%s]%%nat" % (
+            "[" + "; ".join("(inject_Z %s)" % Zs(v) for v in ints[:-1]) + "]",
+            "(inject_Z %s)" % Zs(ints[-1]), "; ".join("%d" % v for v in s)))
     return "[" + ";\n   ".join(out) + "]"
+
+
+def Zs(x):
+    return "(%d)" % x if x < 0 else "%d" % x
